@@ -431,7 +431,10 @@ class CFG:
         """Dominators of node (excluding itself) that satisfy pred."""
         dom = self.dominators(kinds)
         if node not in dom:
-            return []
+            # code that is only reachable through an exception edge (handler / finally bodies)
+            dom = self.dominators("nrx")
+            if node not in dom:
+                return []
         return [d for d in dom[node] if d is not node and pred(d)]
 
     def every_path(self, srcs, dsts, through, kinds="n"):
